@@ -135,15 +135,16 @@ func vrRTs(names []string) []bgp.ExtendedCommunityInterface {
 }
 
 type vrWorld struct {
-	t     *testing.T
-	ss    *simServer
-	b     *vrBehaviour
-	peers map[string]*simPeer
-	vpn   map[string]map[string]map[string]any // neighbour -> "rd:prefix" -> entry (VPNv4 view)
-	uni   map[string]map[string]map[string]any // neighbour -> prefix -> entry (IPv4 unicast view)
-	rtc   map[string]map[string]bool           // neighbour -> membership NLRI string (what the speaker told it)
-	junk  map[string]int                       // neighbour -> UPDATE content of a family it did not negotiate
-	tr    *vpTrace
+	t      *testing.T
+	ss     *simServer
+	b      *vrBehaviour
+	peers  map[string]*simPeer
+	vpn    map[string]map[string]map[string]any // neighbour -> "rd:prefix" -> entry (VPNv4 view)
+	uni    map[string]map[string]map[string]any // neighbour -> prefix -> entry (IPv4 unicast view)
+	rtc    map[string]map[string]bool           // neighbour -> membership NLRI string (what the speaker told it)
+	rtcOwn map[string]map[string]string         // ... those with the speaker's own AS as origin -> target name
+	junk   map[string]int                       // neighbour -> UPDATE content of a family it did not negotiate
+	tr     *vpTrace
 }
 
 func (w *vrWorld) addPeer(name string) {
@@ -179,6 +180,7 @@ func (w *vrWorld) resetViews(name string) {
 	w.vpn[name] = map[string]map[string]any{}
 	w.uni[name] = map[string]map[string]any{}
 	w.rtc[name] = map[string]bool{}
+	w.rtcOwn[name] = map[string]string{}
 	w.junk[name] = 0
 }
 
@@ -484,6 +486,7 @@ func (w *vrWorld) fold(name string) {
 							continue
 						}
 						delete(w.rtc[name], n.String())
+						delete(w.rtcOwn[name], n.String())
 					default:
 						w.junk[name]++
 					}
@@ -504,6 +507,9 @@ func (w *vrWorld) fold(name string) {
 							continue
 						}
 						w.rtc[name][n.String()] = true
+						if n.AS == 65000 && n.RouteTarget != nil {
+							w.rtcOwn[name][n.String()] = vrRTName(n.RouteTarget)
+						}
 					default:
 						w.junk[name]++
 					}
@@ -581,6 +587,13 @@ func (w *vrWorld) observe() map[string]any {
 		}
 		sort.Strings(l)
 		obs["rtcout"] = l // memberships the speaker advertised to N1 (informational)
+		// the speaker's own memberships (origin AS = its AS) by target name
+		own := []string{}
+		for _, n := range w.rtcOwn["N1"] {
+			own = append(own, n)
+		}
+		sort.Strings(own)
+		obs["rtcown"] = own
 	}
 	// ListVrf
 	vrfs := map[string]map[string]any{}
@@ -653,7 +666,7 @@ func (w *vrWorld) observe() map[string]any {
 func vrRun(t *testing.T, tr *vpTrace, tid int, b *vrBehaviour) {
 	synctest.Test(t, func(t *testing.T) {
 		w := &vrWorld{t: t, b: b, peers: map[string]*simPeer{}, vpn: map[string]map[string]map[string]any{},
-			uni: map[string]map[string]map[string]any{}, rtc: map[string]map[string]bool{}, junk: map[string]int{}, tr: tr}
+			uni: map[string]map[string]map[string]any{}, rtc: map[string]map[string]bool{}, rtcOwn: map[string]map[string]string{}, junk: map[string]int{}, tr: tr}
 		w.ss = newSimServer(t, &api.Global{Asn: simLocalAS})
 		w.addPeer("N1")
 		w.addPeer("N2")
